@@ -392,7 +392,9 @@ def rule_writer_schema(ctx):
         STOP = ("after a successful chunk the writer stops although input remains and room beyond the per-chunk overhead may be left "
                 "(the loop ends with input unconsumed that the advertised maximum counts on)")
         more = I.decide(st, ("lt", tw, LEN))
-        if ret == want:
+        # the same question asked as `rest is not empty`: len - tw != 0 (tw <= len by the min)
+        alt = ("term", ("not", ("eq", ("int", 0), ("term", ("arith", "Sub", LEN, tw)))))
+        if ret == want or ret == alt:
             pass
         elif ret == ("int", 1):
             if more is not True:
